@@ -15,8 +15,13 @@ package main
 // Oracles (real code only, independent of the model):
 //	(a) the call returns within the watchdog (5 s), and does not panic;
 //	(b) tags generated from the grammar whose replacements are brace-free scalars / plain defaults: the result
-//	    equals the harness's own inner-first substitution (evalNodes); a difference in a case where an empty map / list
+//	    equals the harness's own inner-first substitution (phEv.eval); a difference in a case where an empty map / list
 //	    without default was substituted carries the signature placeholder-empty-container-kept (defect repaired in 729842a);
+//	    the same for replacements that carry placeholders themselves (a configured value `base: "${root}/app"`): the tag is
+//	    processed as if it had been written with the replacement text, so the harness parses the value (phParse: every brace
+//	    belongs to a `${…}` pair) and substitutes it in turn; a key met again on its OWN chain is a circular reference and
+//	    is left to (a); repetition and diamonds are not circular. A difference carries the signature placeholder-indirect;
+//	    claimed only below 300 substitutions per tag (the library's bound is 1000 replacements);
 //	(c) a result without error contains no `${…}` match;
 //	(d) end to end: Run binds the same string (only for "plain" results), or fails when the direct call fails.
 
@@ -459,9 +464,70 @@ func phLookup(root *cval, key string) (v *cval, exact bool) {
 	return cur, true
 }
 
-// evalNodes: inner-first substitution. exact=false = the oracle does not apply (JSON values, number-like or
-// bracketed defaults, braces in a replacement, lookups it does not claim)
-func evalNodes(root *cval, ns []*phNode, emptyNoDefault *bool) (string, bool) {
+// phParse reads a text as literals and placeholders when EVERY brace of the text belongs to a `${ … }` pair (nesting
+// allowed); the content of a placeholder is kept whole (its first ':' is found after substitution, as the property reads
+// `${key:default}`). ok=false for any other text (a lone brace, `${` without its `}`).
+func phParse(s string) ([]*phNode, bool) {
+	ns, rest, ok := phParseSeq(s, false, 0)
+	return ns, ok && rest == ""
+}
+
+func phParseSeq(s string, inside bool, depth int) (ns []*phNode, rest string, ok bool) {
+	if depth > 40 {
+		return nil, "", false
+	}
+	var lit strings.Builder
+	flush := func() {
+		if lit.Len() > 0 {
+			ns = append(ns, &phNode{lit: lit.String()})
+			lit.Reset()
+		}
+	}
+	for len(s) > 0 {
+		switch {
+		case strings.HasPrefix(s, "${"):
+			flush()
+			inner, r, ok := phParseSeq(s[2:], true, depth+1)
+			if !ok {
+				return nil, "", false
+			}
+			if inner == nil {
+				inner = []*phNode{}
+			}
+			ns = append(ns, &phNode{key: inner})
+			s = r
+		case s[0] == '}':
+			if !inside {
+				return nil, "", false
+			}
+			flush()
+			return ns, s[1:], true
+		case s[0] == '{':
+			return nil, "", false
+		default:
+			lit.WriteByte(s[0])
+			s = s[1:]
+		}
+	}
+	flush()
+	return ns, "", !inside
+}
+
+// phEv: the harness's own substitution (never the library's code, never the model).
+type phEv struct {
+	root           *cval
+	emptyNoDefault bool     // an empty map / list without default was substituted
+	indirect       bool     // a replacement carried placeholders itself and was substituted in turn
+	steps          int      // placeholders substituted so far (= look-ups the library needs)
+	chain          []string // keys whose value is being substituted right now
+}
+
+const phMaxSteps = 300 // far below the library's bound of 1000 replacements: beyond it the oracle claims nothing
+
+// eval: inner-first substitution. exact=false = the oracle does not apply (JSON values, number-like or
+// bracketed defaults, a lone brace in a replacement, lookups it does not claim, circular references, too many steps)
+func (e *phEv) eval(ns []*phNode) (string, bool) {
+	root := e.root
 	var sb strings.Builder
 	for _, n := range ns {
 		if n.key == nil {
@@ -471,16 +537,19 @@ func evalNodes(root *cval, ns []*phNode, emptyNoDefault *bool) (string, bool) {
 			sb.WriteString(n.lit)
 			continue
 		}
-		content, ok := evalNodes(root, n.key, emptyNoDefault)
+		content, ok := e.eval(n.key)
 		if !ok {
 			return "", false
 		}
 		if n.hasD {
-			d, ok := evalNodes(root, n.def, emptyNoDefault)
+			d, ok := e.eval(n.def)
 			if !ok {
 				return "", false
 			}
 			content += ":" + d
+		}
+		if e.steps++; e.steps > phMaxSteps {
+			return "", false
 		}
 		key, def := content, ""
 		if i := strings.IndexByte(content, ':'); i >= 0 {
@@ -498,7 +567,7 @@ func evalNodes(root *cval, ns []*phNode, emptyNoDefault *bool) (string, bool) {
 			case def == "":
 				r = ""
 				if v != nil && v.kind != 'z' {
-					*emptyNoDefault = true // an empty map / list without default: must resolve like an absent key
+					e.emptyNoDefault = true // an empty map / list without default: must resolve like an absent key
 				}
 			case l == "true" || l == "false":
 				r = l
@@ -517,7 +586,24 @@ func evalNodes(root *cval, ns []*phNode, emptyNoDefault *bool) (string, bool) {
 			return "", false
 		}
 		if strings.ContainsAny(r, "{}") {
-			return "", false
+			// the replacement text carries placeholders itself: the tag goes on as if it had been written with that text
+			sub, ok := phParse(r)
+			if !ok {
+				return "", false
+			}
+			ck := strings.ToLower(key)
+			for _, c := range e.chain {
+				if c == ck {
+					return "", false // circular: the property asks for an error or an empty value, judged by the watchdog
+				}
+			}
+			e.chain = append(e.chain, ck)
+			r, ok = e.eval(sub)
+			e.chain = e.chain[:len(e.chain)-1]
+			if !ok {
+				return "", false
+			}
+			e.indirect = true
 		}
 		sb.WriteString(r)
 	}
@@ -583,12 +669,18 @@ func runPh(c phCase, w *hx.Writer) {
 		}
 	}
 	if c.nodes != nil && r.tagStr == c.text && out.Oracle == "" {
-		emptyNoDefault := false
-		if want, ok := evalNodes(c.cfg, c.nodes, &emptyNoDefault); ok {
+		ev := &phEv{root: c.cfg}
+		if want, ok := ev.eval(c.nodes); ok {
 			out.Tags = append(out.Tags, "eval-oracle")
+			if ev.indirect {
+				out.Tags = append(out.Tags, "eval-indirect")
+			}
 			if r.obs != hx.Hex(want) {
 				sig := "placeholder-eval"
-				if emptyNoDefault {
+				switch {
+				case ev.indirect:
+					sig = "placeholder-indirect"
+				case ev.emptyNoDefault:
 					sig = "placeholder-empty-container-kept"
 				}
 				out.Oracle = fmt.Sprintf("FAIL %s tag %q gives %q (obs %s), substitution gives %q", sig, c.text, r.val, r.obs, want)
@@ -626,7 +718,11 @@ func phReplay(scn string, w *hx.Writer) {
 	if !ok || len(rest) != 0 || cfg.kind != 'm' {
 		return
 	}
-	runPh(phCase{text: s, cfg: cfg, tags: []string{"replay"}, exact: true}, w)
+	nodes, ok := phParse(s) // the substitution oracle applies to a recorded TagStr that reads as literals and placeholders
+	if !ok {
+		nodes = nil
+	}
+	runPh(phCase{text: s, nodes: nodes, cfg: cfg, tags: []string{"replay"}, exact: true}, w)
 }
 
 // ---------------------------------------------------------------- corpus
@@ -699,6 +795,32 @@ func phCorpus(w *hx.Writer) {
 	}
 	for _, c := range rec {
 		for _, t := range []string{"${a}", "x${a}y${b:d}", "${a}${b}", "${${a}}", "$${a}{b}", "${a}b}"} {
+			runPh(phCase{text: t, cfg: c, tags: []string{"corpus", "recursive"}, e2e: true}, w)
+		}
+	}
+	// values that contain placeholders, reached more than once in one tag: repetition of an indirect key, diamonds (two
+	// keys that go through a third one), the same inside a default and inside another placeholder's key. Nothing is
+	// circular here, so every placeholder resolves (these carry the substitution oracle)
+	dia := func() *cval {
+		return phCfgOf("root", "/opt", "base", "${root}/app", "bin", "${base}/bin", "lib", "${base}/lib", "n", 5, "port", "${n}",
+			"twice", "${base}:${base}", "dflt", "${nope:${root}}", "opt", "${nope:dd}", "e", cMap(), "sel", "${which}", "which", "x",
+			"kx", "${base}!", "deep", "${bin}${lib}${twice}", "grp", phCfgOf("home", "${root}/home", "both", "${grp.home}|${grp.home}"))
+	}
+	for _, t := range []string{"${base}", "${base}/bin:${base}/lib", "${bin}:${lib}", "${bin}:${base}", "${twice}", "${twice}${twice}", "${zz:${base}}-${base}",
+		"${base:d}${BASE}", "${dflt}${dflt}", "${opt} ${opt}", "${port}${port}${port}", "${k${sel}}", "${k${sel}}${k${sel}}", "${k${sel}} ${sel} ${base}",
+		"${deep}", "${deep}/${deep}", "${grp.home}:${grp.home}", "${grp.both}", "${GRP.BOTH}${grp.home}", "${e:${base}}${el:${base}}", "${root}${root}",
+		"${zz:${zz:${base}}}${base}", "x${bin}y${lib}z${base}"} {
+		nodes, _ := phParse(t)
+		runPh(phCase{text: t, nodes: nodes, cfg: dia(), tags: []string{"corpus", "grammar", "indirect"}, e2e: true}, w)
+	}
+	// a circular value that mentions the circular key twice: the number of placeholders grows with every replacement;
+	// resolution must still end (error or empty value) within the watchdog
+	for _, c := range []*cval{phCfgOf("twice", "${twice}/${twice}"), phCfgOf("left", "${right} ${right}", "right", "${left}"),
+		phCfgOf("a", "${b}${b}", "b", "${c}${c}", "c", "${a}${a}"),
+		// … and circular values with a resolvable placeholder (a configured key, a default) in front of the back reference
+		phCfgOf("home", "/home/kid", "path", "${home}/bin:${path}", "start", "${prefix:}${start}"),
+		phCfgOf("sep", "/", "start", "a${sep}${other}", "other", "b${sep}${start}", "path", "${nope:x}${path}${sep}${path}")} {
+		for _, t := range []string{"${twice}", "${left}", "${right}${left}", "${a}", "${path}", "${start}", "${home}:${start}${path}"} {
 			runPh(phCase{text: t, cfg: c, tags: []string{"corpus", "recursive"}, e2e: true}, w)
 		}
 	}
@@ -989,6 +1111,272 @@ func phMutate(r *hx.Rng, c *cval) *cval {
 	return m
 }
 
+// ---------------------------------------------------------------- indirect placeholders
+//
+// Designed configurations in levels: leaf keys hold plain scalars (some are absent), the value of a middle key is a text
+// with placeholders for leaf keys, the value of a top key a text with placeholders for middle (and leaf) keys. The tag
+// reaches one placeholder-bearing value at least twice: by repetition, through two different keys (a diamond), inside a
+// default, inside another placeholder's key. Nothing is circular, so the property demands the full substitution.
+
+const phIndAlpha = "abcxyzABZ019 /-_.:"
+
+type phIndKey struct {
+	name   string
+	absent bool
+}
+
+type phIndGen struct {
+	r    *hx.Rng
+	cfg  *cval
+	used map[string]bool
+}
+
+func (g *phIndGen) atom(max int) string {
+	n := 1 + g.r.Intn(max)
+	b := make([]byte, n)
+	for i := range b {
+		if g.r.P(2, 3) {
+			b[i] = "abcxyz"[g.r.Intn(6)]
+		} else {
+			b[i] = phIndAlpha[g.r.Intn(len(phIndAlpha))]
+		}
+	}
+	return string(b)
+}
+
+func (g *phIndGen) letters(min, max int) string {
+	n := min + g.r.Intn(max-min+1)
+	b := make([]byte, n)
+	for i := range b {
+		b[i] = "abcdefgh"[g.r.Intn(8)]
+	}
+	return string(b)
+}
+
+// a fresh key name; one time in six inside a nested map (dotted path)
+func (g *phIndGen) fresh(nested bool) string {
+	for {
+		k := g.letters(2, 4)
+		if nested && g.r.P(1, 6) {
+			k = "g" + g.letters(1, 1) + "." + k
+		}
+		if !g.used[k] && !g.used[strings.SplitN(k, ".", 2)[0]] {
+			g.used[k] = true
+			return k
+		}
+	}
+}
+
+func (g *phIndGen) put(path string, v *cval) {
+	if i := strings.IndexByte(path, '.'); i >= 0 {
+		grp := g.cfg.child(path[:i])
+		if grp == nil || grp.kind != 'm' {
+			grp = cMap()
+			g.cfg.put(path[:i], grp)
+			g.used[path[:i]] = true
+		}
+		grp.put(path[i+1:], v)
+		return
+	}
+	g.cfg.put(path, v)
+}
+
+func (g *phIndGen) ref(k phIndKey) *phNode {
+	r := g.r
+	key := k.name
+	if r.P(1, 8) {
+		key = strings.ToUpper(key)
+	}
+	n := &phNode{key: []*phNode{{lit: key}}}
+	if (k.absent && r.P(3, 4)) || (!k.absent && r.P(1, 5)) {
+		n.hasD = true
+		switch r.Intn(6) {
+		case 0:
+			n.def = []*phNode{}
+		case 1:
+			n.def = []*phNode{{lit: []string{"'q'", "TRUE", "a:b", "x y"}[r.Intn(4)]}}
+		default:
+			n.def = []*phNode{{lit: g.atom(3)}}
+		}
+	}
+	return n
+}
+
+// a text over the keys of pool; `must` (if any) is referred to first and, half of the time, once more
+func (g *phIndGen) text(pool []phIndKey, must *phIndKey, minRefs int) []*phNode {
+	r := g.r
+	var ns []*phNode
+	if r.P(1, 2) {
+		ns = append(ns, &phNode{lit: g.atom(3)})
+	}
+	refs := minRefs + r.Intn(3)
+	if refs == 0 {
+		refs = 1
+	}
+	for i := 0; i < refs; i++ {
+		k := pool[r.Intn(len(pool))]
+		if must != nil && (i == 0 || (i == 1 && r.P(1, 2))) {
+			k = *must
+		}
+		ns = append(ns, g.ref(k))
+		if r.P(2, 3) {
+			ns = append(ns, &phNode{lit: g.atom(3)})
+		}
+	}
+	return ns
+}
+
+func phRender(ns []*phNode) string {
+	var sb strings.Builder
+	renderNodes(ns, &sb)
+	return sb.String()
+}
+
+type phIndInfo struct{ leaves, mids, tops []phIndKey }
+
+func phIndirectCase(r *hx.Rng) (*cval, []*phNode, []string, phIndInfo) {
+	g := &phIndGen{r: r, cfg: cMap(), used: map[string]bool{"zz": true}}
+	var leaves, mids, tops []phIndKey
+	for i, n := 0, 1+r.Intn(3); i < n; i++ {
+		k := phIndKey{name: g.fresh(true), absent: r.P(1, 5)}
+		if !k.absent {
+			switch r.Intn(8) {
+			case 0:
+				g.put(k.name, cNum(phNumText(r)))
+			case 1:
+				g.put(k.name, &cval{kind: 'b', b: r.Bool()})
+			case 2:
+				g.put(k.name, cStr([]string{"", "x:y", "a b", "'q'", "12", "true"}[r.Intn(6)]))
+			default:
+				g.put(k.name, cStr(g.atom(5)))
+			}
+		}
+		leaves = append(leaves, k)
+	}
+	for i, n := 0, 1+r.Intn(2); i < n; i++ {
+		k := phIndKey{name: g.fresh(true)}
+		g.put(k.name, cStr(phRender(g.text(leaves, nil, 1))))
+		mids = append(mids, k)
+	}
+	for i := 0; i < 2; i++ {
+		k := phIndKey{name: g.fresh(true)}
+		g.put(k.name, cStr(phRender(g.text(append(append([]phIndKey{}, mids...), leaves...), &mids[0], 1))))
+		tops = append(tops, k)
+	}
+	all := append(append(append([]phIndKey{}, leaves...), mids...), tops...)
+	lit := func() *phNode { return &phNode{lit: g.atom(3)} }
+	var ns []*phNode
+	shape := r.Intn(8)
+	switch shape {
+	case 0: // repetition of an indirect key
+		ns = []*phNode{g.ref(mids[0]), lit(), g.ref(mids[0])}
+		if r.P(1, 3) {
+			ns = append(ns, g.ref(mids[0]))
+		}
+	case 1: // diamond: two keys through a third one
+		ns = []*phNode{g.ref(tops[0]), lit(), g.ref(tops[1])}
+	case 2: // directly and through another key
+		ns = []*phNode{g.ref(mids[0]), lit(), g.ref(tops[r.Intn(2)])}
+		if r.Bool() {
+			ns[0], ns[2] = ns[2], ns[0]
+		}
+	case 3: // inside another placeholder's key: ${k${sel}} where sel's value is itself a placeholder text
+		w, p := g.letters(1, 3), g.letters(0, 2)
+		s0 := phIndKey{name: g.fresh(false)}
+		g.put(s0.name, cStr(w))
+		s1 := phIndKey{name: g.fresh(false)}
+		g.put(s1.name, cStr(p+phRender([]*phNode{g.ref(s0)})))
+		tk := "k" + g.letters(0, 1)
+		for g.used[tk+p+w] {
+			tk += "k"
+		}
+		g.used[tk+p+w] = true
+		if r.Bool() {
+			g.put(tk+p+w, cStr(phRender(g.text(all, &mids[0], 1)))) // the selected key is indirect as well
+		} else {
+			g.put(tk+p+w, cStr(g.atom(4)))
+		}
+		sel := func() *phNode { return &phNode{key: []*phNode{{lit: tk}, {key: []*phNode{{lit: s1.name}}}}} }
+		ns = []*phNode{sel(), lit(), sel()}
+		if r.P(1, 2) {
+			ns = append(ns, lit(), g.ref(s1), g.ref(mids[0]))
+		}
+	case 4: // inside a default, and once more outside
+		in := mids[0]
+		if r.P(1, 3) {
+			in = tops[0]
+		}
+		ns = []*phNode{{key: []*phNode{{lit: "zz"}}, hasD: true, def: []*phNode{g.ref(in)}}, lit(), g.ref(mids[0])}
+		if r.P(1, 3) {
+			ns[0].def = append([]*phNode{lit()}, ns[0].def...)
+		}
+	case 5: // one level more: a key over the top keys, next to a top key
+		u := phIndKey{name: g.fresh(true)}
+		g.put(u.name, cStr(phRender(g.text(append(append([]phIndKey{}, tops...), mids...), &tops[0], 2))))
+		ns = []*phNode{g.ref(u), lit(), g.ref(tops[r.Intn(2)])}
+	case 6: // the repetition sits inside ONE value: the tag uses that key once
+		u := phIndKey{name: g.fresh(true)}
+		g.put(u.name, cStr(phRender([]*phNode{g.ref(mids[0]), lit(), g.ref(mids[0])})))
+		ns = []*phNode{lit(), g.ref(u)}
+	default:
+		ns = g.text(all, &mids[0], 2)
+	}
+	if r.P(1, 3) {
+		ns = append([]*phNode{lit()}, ns...)
+	}
+	np, depth := countPh(ns)
+	return g.cfg, ns, []string{"grammar", "indirect", fmt.Sprintf("ind-shape%d", shape), fmt.Sprintf("ph%d", np), fmt.Sprintf("depth%d", depth)},
+		phIndInfo{leaves, mids, tops}
+}
+
+func (c *cval) clone() *cval {
+	d := *c
+	d.ks = append([]string(nil), c.ks...)
+	d.xs = make([]*cval, len(c.xs))
+	for i, x := range c.xs {
+		d.xs[i] = x.clone()
+	}
+	return &d
+}
+
+// the designed configuration made circular: the first middle key now leads back to a top key (which goes through it)
+// or to itself - behind a resolvable placeholder, or twice, so that the text grows with every replacement. The property
+// then asks for an error or an empty value within the watchdog; the substitution oracle abstains on a circular chain.
+func phMakeCircular(r *hx.Rng, cfg *cval, in phIndInfo) (*cval, string) {
+	c := cfg.clone()
+	g := &phIndGen{r: r, cfg: c, used: map[string]bool{}}
+	mid, back := in.mids[0], in.tops[r.Intn(len(in.tops))]
+	ref := func(k phIndKey) string { return "${" + k.name + "}" }
+	var v, kind string
+	switch r.Intn(4) {
+	case 0:
+		v, kind = phRender([]*phNode{g.ref(in.leaves[r.Intn(len(in.leaves))])})+g.atom(2)+ref(back), "circ-behind-resolvable"
+	case 1:
+		v, kind = "${zz:"+g.atom(2)+"}"+ref(mid)+g.atom(2), "circ-behind-resolvable"
+	case 2:
+		v, kind = ref(back)+g.atom(2)+ref(back), "circ-twice"
+	default:
+		v, kind = g.atom(2)+ref(mid)+ref(mid), "circ-twice"
+	}
+	g.put(mid.name, cStr(v))
+	return c, kind
+}
+
+func phGenIndirect(rng *hx.Rng, groups int, w *hx.Writer) {
+	for i := 0; i < groups; i++ {
+		r := rng.Fork()
+		cfg, nodes, tags, info := phIndirectCase(r)
+		text := phRender(nodes)
+		e2e := r.P(1, 10)
+		runPh(phCase{text: text, nodes: nodes, cfg: cfg, tags: append(append([]string{}, tags...), "cfg-designed"), e2e: e2e}, w)
+		runPh(phCase{text: text, nodes: nodes, cfg: phMutate(r, cfg), tags: append(append([]string{}, tags...), "cfg-mutated"), e2e: e2e}, w)
+		if r.P(1, 10) {
+			circ, kind := phMakeCircular(r, cfg, info)
+			runPh(phCase{text: text, nodes: nodes, cfg: circ, tags: append(append([]string{}, tags...), "cfg-circular", kind), e2e: e2e}, w)
+		}
+	}
+}
+
 func phGen(rng *hx.Rng, n int, tier string, w *hx.Writer) {
 	// hx.NewRng(seed) and hx.NewRng(seed+1) walk the same arithmetic progression one step apart; forking once first
 	// moves this generator to a hashed starting point, so that neighbouring seeds give unrelated cases
@@ -1033,4 +1421,6 @@ func phGen(rng *hx.Rng, n int, tier string, w *hx.Writer) {
 			runPh(phCase{text: text, nodes: nodes, cfg: c, tags: append(append([]string{}, tags...), kinds[j]), e2e: e2e}, w)
 		}
 	}
+	// after the main stream (whose cases stay what they were): values that carry placeholders, reached several times
+	phGenIndirect(rng.Fork(), (n+5)/6, w)
 }
